@@ -47,6 +47,8 @@ A *case* is a structural description, never source text::
     expected(case, quirks=())     R-inh: the rendered string, or ("exc", "TemplateRuntimeError") /
                                   ("exc", "UndefinedError"); RECURSION for self-recursive cases (cases()
                                   never yields those).
+    required_unreached(case)      structural predicate for the known finding "required block whose tag is never
+                                  reached" (see the function).
     render(case, env_kwargs=None, loader_wrap=None) -> outcome of the real engine in the same format
                                   (fresh Environment + DictLoader), convenience for checks.
     tojson(case) / fromjson(obj)  JSON round trip for samples and replays.
@@ -386,6 +388,7 @@ class _Resolver:
         self.out = []
         self.stacks = {}  # block name -> list of level ids, most derived first
         self.depth = 0
+        self.unreached_required = False
 
     # -- structure access
     def level(self, lid):
@@ -444,10 +447,12 @@ class _Resolver:
                 self.leak(cur)
             cur = parent
         self.layout(cur)
-        if "lazy_required" not in self.quirks:
-            # docs "Required Blocks": must be overridden at some point
-            for x, st in self.stacks.items():
-                if self.kind(st[-1], x) == "req" and len(st) <= 1:
+        # docs "Required Blocks": must be overridden at some point -- also when the required
+        # block's tag is never reached because an enclosing block was overridden
+        for x, st in self.stacks.items():
+            if self.kind(st[-1], x) == "req" and len(st) <= 1:
+                self.unreached_required = True
+                if "lazy_required" not in self.quirks:
                     raise _Raise("TemplateRuntimeError")
         return "".join(self.out)
 
@@ -544,3 +549,17 @@ def expected(case, quirks=()):
         return ("exc", e.name)
     except _Recursion:
         return RECURSION
+
+
+def required_unreached(case):
+    """Structural predicate: the whole layout renders without error, yet the root's required
+    block has no override and its tag is never reached (it is nested in a block that a
+    descendant overrides).  R-inh expects TemplateRuntimeError for such a case."""
+    r = _Resolver(case, ())
+    try:
+        r.run()
+    except _Raise:
+        return r.unreached_required
+    except _Recursion:
+        return False
+    return False
